@@ -96,7 +96,7 @@ CLAIMED["C12"] = {
 
 CLAIMED["C04"] = {
     "technique": "Lean 4 proof of the Hilbert-transducer prefix property for any state diagram with digits < 8, kernel-checked obligations on the state diagram regenerated from hilbert.py (equals the reference, per-state permutation), interval-pick lemma for the bound-key loops; correspondence of selective loads with the filter of the full load on Hilbert-consistent synthetic outputs",
-    "text": "key_prefix / key_prefix_current (key(x,y,z,B) / 8^(B-b) = key of the enclosing cube, for all coordinates and depths), table_is_reference, generated_digit_perm, generated_next_lt (decide +kernel on the extracted table), key_injective_current (two cells of the 2^b grid with the same key are the same cell, for every depth b: run_injective over the regenerated table, ofDigits_injective, eq_of_bits), C04_interval_pick (the owner of any key inside a search interval lies between cpu_min and cpu_max for non-decreasing bound keys), C04_cube_not_finer, C04_axis_sound (the box hilbert_cpu_list derives from the sampled cell centres contains every accepted cell centre, for interval-type functions: axisBox_sound + convex_of_interval_preds; for outputs deeper than the sampling level 18 only with the wider padding of fix a73f858), and the composition C04_preselect_sound / C04_box_sound (3-D: every cell whose centre lies in the bounding box handed to _get_cpu_list is owned by a cpu of the returned list — key_in_cube_interval, cubeLevel_spec / dmax_le_cube (the box is not wider than a search cube), trunc_two / trunc_centre / axis_in_cubes (the eight search cubes cover the box), mem_collect) are proved. Tie: 3-D outputs owned according to the reference curve for equal / random / empty-domain / cube-edge bound keys and 1..64 cpus; deep zooms (levelmax 19-22, a chain of cells hugging a search-cube face, keys as the info file's 16 digits give them); boxes from 1.2 finest cells (smaller than the leaf they hit) to the whole domain on 1-3 axes, value predicates, explicit cpu_list, non-hilbert ordering; rows, the number of files opened, and _hilbert3d itself (exhaustive to depth 3, random to 19 bits) are compared; the cube-finer-than-oct witness is replayed on every run.",
+    "text": "key_prefix / key_prefix_current (key(x,y,z,B) / 8^(B-b) = key of the enclosing cube, for all coordinates and depths), table_is_reference, generated_digit_perm, generated_next_lt (decide +kernel on the extracted table), key_injective_current (two cells of the 2^b grid with the same key are the same cell, for every depth b: run_injective over the regenerated table, ofDigits_injective, eq_of_bits), C04_interval_pick (the owner of any key inside a search interval lies between cpu_min and cpu_max for non-decreasing bound keys), C04_cube_not_finer, C04_axis_sound (the box hilbert_cpu_list derives from the sampled cell centres contains every accepted cell centre, for interval-type functions: axisBox_sound + convex_of_interval_preds; for outputs deeper than the sampling level 18 only with the wider padding of fix a73f858), C04_cell_sound (a leaf cell whose own centre lies in the box is served although ownership goes by the centre of its oct: octCoord_cube, bitLength_le_minCube) and the end-to-end C04_selection_sound (for interval-type position functions, non-decreasing bound keys and search cubes not finer than levelmin, the cpu owning the oct of every accepted cell of level >= levelmin is in the list hilbert_cpu_list returns), and the composition C04_preselect_sound / C04_box_sound (3-D: every cell whose centre lies in the bounding box handed to _get_cpu_list is owned by a cpu of the returned list — key_in_cube_interval, cubeLevel_spec / dmax_le_cube (the box is not wider than a search cube), trunc_two / trunc_centre / axis_in_cubes (the eight search cubes cover the box), mem_collect) are proved. Tie: 3-D outputs owned according to the reference curve for equal / random / empty-domain / cube-edge bound keys and 1..64 cpus; deep zooms (levelmax 19-22, a chain of cells hugging a search-cube face, keys as the info file's 16 digits give them); boxes from 1.2 finest cells (smaller than the leaf they hit) to the whole domain on 1-3 axes, value predicates, explicit cpu_list, non-hilbert ordering; rows, the number of files opened, and _hilbert3d itself (exhaustive to depth 3, random to 19 bits) are compared; the cube-finer-than-oct witness is replayed on every run.",
     "note": "trusted: Lean kernel + standard axioms; reference state diagram = table of the pinned commit (no RAMSES source offline); ownership rule of RAMSES as formalised; 1-D/2-D outputs and bound keys >= 2^53 are not covered; that the bounding box computed by hilbert_cpu_list from the sampled cell centres contains every qualifying cell is by correspondence",
     "design_ref": "5 C04",
 }
